@@ -135,6 +135,9 @@ def run(model, tier="quick"):
     if "R-ORIENT" not in res.rules:
         res.rules.append("R-ORIENT")
     res.units["base_quote_pairs_consumed_outside_uniswap"] = orientation_rule(model, res)["sites"]
+    # constructors establish the relations between fields that the references above take for granted
+    from .ctor_refs import constructors
+    res.units["constructor_references"] = constructors(res, model, ('market', 'broker', 'pool'))
     from ..rules.fresh import fresh_rule
     if "R-FRESH" not in res.rules:
         res.rules.append("R-FRESH")
